@@ -704,8 +704,8 @@ PROPS = {
         assumptions=["loopback TCP"],
     ),
     "C10": dict(
-        audit_modules=["RodbusModel.Audit.C10"],
-        required_theorems=["Rodbus.Client.session_ending_table_correct", "Rodbus.Client.pending_partition", "Rodbus.Client.never_completed_twice", "Rodbus.Client.closed_trace_exactly_once",
+        audit_modules=["RodbusModel.Audit.C10", "RodbusModel.Audit.C10Drain"],
+        required_theorems=["Rodbus.Client.drain_completes", "Rodbus.Client.drain_completes_mbap", "Rodbus.Client.drain_completes_rtu", "Rodbus.Client.session_ending_table_correct", "Rodbus.Client.pending_partition", "Rodbus.Client.never_completed_twice", "Rodbus.Client.closed_trace_exactly_once",
                            "Rodbus.Client.drained_exactly_once", "Rodbus.Client.error_meaning_noconn", "Rodbus.Client.error_meaning_timeout",
                            "Rodbus.Client.error_meaning_transport", "Rodbus.Client.error_meaning_shutdown_task",
                            "Rodbus.Client.error_meaning_shutdown_partial", "Rodbus.Client.drain_completes_partial"],
@@ -715,11 +715,12 @@ PROPS = {
                    "sequence, queue capacity, timeout limit, framing and every resolution of tokio::select! races (scheduler coins are universally "
                    "quantified): pending_partition (per request id: completions + queued + in flight = accepted), never_completed_twice, "
                    "closed_trace_exactly_once / drained_exactly_once, error_meaning_noconn / _timeout / _transport / _shutdown_task, "
-                   "error_meaning_shutdown_partial (the one exclusion is open finding F10), drain_completes_partial (from states between phases, "
-                   "finitely many timer / phase steps complete everything). Tie: the production ClientLoop behind real Channel / CallbackSession / "
+                   "error_meaning_shutdown_partial (the one exclusion is open finding F10), drain_completes (from EVERY reachable state in which the task "
+                   "is alive - mid-session, requests in flight and queued, any timeouts - finitely many clock advances and fail_requests_for phases, "
+                   "with no cooperation of peer or user, complete every accepted request exactly as often as it was accepted; termination measure "
+                   "tick_mu; framing hypothesis Consuming proved for MBAP and RTU). Tie: the production ClientLoop behind real Channel / CallbackSession / "
                    "FfiChannel handles, in-memory transport, paused clock, lock-step; plus an independent oracle on the implementation's log.",
-        level_note="Partial: drain_completes only from states between phases (the full statement needs a termination measure over the reader); "
-                   "async senders waiting for queue capacity are outside the model (the generator keeps submissions below capacity); real thread "
+        level_note="Senders waiting for queue capacity are queue entries beyond the capacity in the model (cl_block scripts); real thread "
                    "interleavings inside tokio are represented by scheduler coins (both orders proved; the harness observes whichever occurs). "
                    "Open finding F10 is reported as KNOWN-FINDING.",
         technique="Lean 4 invariant proofs over the client-task state machine (all schedules) + model-steered differential event scripts + log oracle",
